@@ -1,7 +1,9 @@
+#![allow(unreachable_pub, dead_code, missing_docs, unused_imports, unused_variables, unused_mut, static_mut_refs, clippy::all)]
 // Kani harnesses for iroh/src/endpoint.rs (C20: bind addresses accepted independent of order).
 use super::*;
 use std::net::{IpAddr, Ipv4Addr, Ipv6Addr};
 include!("/verif/kani/common.rs");
+include!("/verif/kani/common_tracing.rs");
 
 #[derive(Clone, Copy)]
 struct Req {
@@ -41,6 +43,9 @@ fn bad_prefix(r: Req) -> bool {
 #[kani::proof]
 #[kani::unwind(6)]
 #[kani::stub(n0_error::backtrace_enabled, vstubs::backtrace_disabled)]
+#[kani::stub(tracing::__macro_support::__is_enabled, tstubs::is_enabled)]
+#[kani::stub(tracing::callsite::DefaultCallsite::interest, tstubs::interest)]
+#[kani::stub(tracing::Event::dispatch, tstubs::dispatch)]
 fn c20_two_binds_order_independent() {
     let r1 = any_req();
     let r2 = any_req();
@@ -57,6 +62,9 @@ fn c20_two_binds_order_independent() {
 #[kani::proof]
 #[kani::unwind(6)]
 #[kani::stub(n0_error::backtrace_enabled, vstubs::backtrace_disabled)]
+#[kani::stub(tracing::__macro_support::__is_enabled, tstubs::is_enabled)]
+#[kani::stub(tracing::callsite::DefaultCallsite::interest, tstubs::interest)]
+#[kani::stub(tracing::Event::dispatch, tstubs::dispatch)]
 fn c20_witness() {
     let r1 = any_req();
     let r2 = any_req();
@@ -70,4 +78,16 @@ fn c20_witness() {
 mod playback {
     use super::*;
     include!("/verif/.build/playback/iroh__endpoint.rs");
+}
+
+#[kani::proof]
+#[kani::unwind(6)]
+#[kani::stub(n0_error::backtrace_enabled, vstubs::backtrace_disabled)]
+#[kani::stub(tracing::__macro_support::__is_enabled, tstubs::is_enabled)]
+#[kani::stub(tracing::callsite::DefaultCallsite::interest, tstubs::interest)]
+#[kani::stub(tracing::Event::dispatch, tstubs::dispatch)]
+fn zz_probe_builder_uninit() {
+    let b: Builder = unsafe { core::mem::MaybeUninit::<Builder>::uninit().assume_init() };
+    let r = apply(b, any_req());
+    core::mem::forget(r);
 }
